@@ -188,3 +188,20 @@ m("c14-add-comp-rail-vs-name-unchecked", ["C14"], Y, "            if (\n        
 m("c14-source-delete-keeps-children", ["C14"], Y, "            if not del_childs:\n                raise ValueError(\"Source must be deleted with its childs\")\n", "")
 m("c14-del-comp-accepts-rail-names", ["C14", "C15"], Y, "        if name not in self._g.attrs[\"nodes\"]:\n            raise ValueError(\"Component name does not exist!\")\n        eidx = self._get_index(name)", "        eidx = self._get_index(name)\n        if eidx == -1:\n            raise ValueError(\"Component name does not exist!\")")
 m("c14-mux-name-only-checked-for-add", ["C14"], Y, "        if comp._component_type.name == \"PMUX\":\n            for key in self._g.attrs[\"nodes\"]:", "        if comp._component_type.name == \"PMUX\" and isinstance(parent, list):\n            for key in self._g.attrs[\"nodes\"]:")
+
+# ---- C15 -------------------------------------------------------------------------------------
+m("c15-set-sys-phases-assign-before-validate", ["C15"], Y,
+  "        if len(list(phases.keys())) < 2 and phases != {}:\n            raise ValueError(\"There must be at least two phases!\")\n        if \"N/A\" in list(phases.keys()):\n            raise ValueError('\"N/A\" is a reserved name!')\n        self._g.attrs[\"phases\"] = phases",
+  "        self._g.attrs[\"phases\"] = phases\n        if len(list(phases.keys())) < 2 and phases != {}:\n            raise ValueError(\"There must be at least two phases!\")\n        if \"N/A\" in list(phases.keys()):\n            raise ValueError('\"N/A\" is a reserved name!')")
+m("c15-add-comp-mutates-before-mux-check", ["C15"], Y,
+  "        # can only have one pmux\n        if comp._component_type.name == \"PMUX\":\n            for key in self._g.attrs[\"nodes\"]:\n                if self._g[self._g.attrs[\"nodes\"][key]]._component_type.name == \"PMUX\":\n                    raise ValueError(\"a system can only have one PMux\")\n        # all ok, add component\n",
+  "        # can only have one pmux\n        self._g.attrs[\"groups\"][comp._params[\"name\"]] = group\n        if comp._component_type.name == \"PMUX\":\n            for key in self._g.attrs[\"nodes\"]:\n                if self._g[self._g.attrs[\"nodes\"][key]]._component_type.name == \"PMUX\":\n                    raise ValueError(\"a system can only have one PMux\")\n        # all ok, add component\n")
+m("c15-change-comp-replaces-before-parent-check", ["C15"], Y,
+  "        # check that parent allows component type as child\n        parents = self._get_parents()\n        if parents[eidx] != -1:",
+  "        # check that parent allows component type as child\n        parents = self._get_parents()\n        if comp._component_type != _ComponentTypes.LOAD:\n            self._g[eidx] = comp\n        if parents[eidx] != -1:")
+m("c15-set-comp-phases-validates-late", ["C15"], Y,
+  "        if isinstance(self._g[cidx], RLoss) or isinstance(self._g[cidx], VLoss):\n            raise ValueError(\"Loss components does not support load phases!\")\n\n        self._g.attrs[\"phase_conf\"][name] = phase_conf",
+  "        self._g.attrs[\"phase_conf\"][name] = phase_conf\n        if isinstance(self._g[cidx], RLoss) or isinstance(self._g[cidx], VLoss):\n            raise ValueError(\"Loss components does not support load phases!\")\n")
+m("c15-del-last-source-checked-after-children-removed", ["C15"], Y,
+  "            if len(self._get_sources()) < 2:\n                raise ValueError(\"Cannot delete the last source component!\")\n        childs = self._get_childs()",
+  "            if len(self._get_sources()) < 2:\n                for c in rx.descendants(self._g, eidx):\n                    self._g.attrs[\"groups\"][self._g[c]._params[\"name\"]] = \"\"\n                raise ValueError(\"Cannot delete the last source component!\")\n        childs = self._get_childs()")
